@@ -74,7 +74,8 @@ CLAIMS = {'C01': {'note': 'Not decided (SQL): the upsert input=input+excluded.in
          'text': 'Go half of cursor pagination, proved for every page size, result length and order: columnPaginator.Paginate issues LIMIT pageSize+1 (default 15), the order (flipped when reversing) '
                  'and exactly the WHERE operator of the four (order, direction) cases; columnPaginator.BuildCursor returns min(len, pageSize) rows (reversed back on reverse pages), HasMore iff the '
                  'extra row came back, next/previous cursors carrying the pagination id of the right row (index obligations included) and the bottom id; OffsetPaginator.Paginate/BuildCursor likewise '
-                 'with offset arithmetic (overflow and MaxInt32 guards).'},
+                 'with offset arithmetic (overflow and MaxInt32 guards). Round 8: OrderExpression of both paginators (the outer ORDER BY) is the order the inner query used, reversed for reverse '
+                 'cursors; cursor-derived queries are validated before a paginator is built (F26).'},
  'C22': {'note': 'Trusted about compiler output (listed in the tick contract as requires): the typed stack discipline, spelled out per opcode as `requires` of tick (stackShape(op): which types the '
                  "top of the stack holds); pop's 5-line generic body is assumed GIVEN that precondition, popValue is verified, OP_APUSH operand bytes, OP_BUMP / MAKE_ALLOTMENT / FUNDING_ASSEMBLE "
                  'counts within the stack, OP_TAKE_ALWAYS / OP_SAVE / OP_ALLOC amounts >= 0, OP_ALLOC allotment sums to 1. Not proved: the compile scheme (ANTLR visitors) that turns a send statement '
@@ -108,7 +109,7 @@ CLAIMS = {'C01': {'note': 'Not decided (SQL): the upsert input=input+excluded.in
          'text': 'Allotment.Allocate is proved, for every non-negative amount (unbounded integer) and every portion vector with positive denominators summing to 1, to return parts that sum exactly '
                  'to the amount, each equal to the floor share plus one unit for the earliest L parts where L is the leftover (0 <= L < number of parts). Loop invariants incl. the nonlinear floor '
                  'sandwich are discharged by SMT. NewAllotment is verified (it was assumed): the result has positive denominators and non-negative numerators, sums to at most 1, to exactly 1 when a '
-                 '`remaining` portion is present, two `remaining` are refused, and every specific portion is copied unchanged.'},
+                 '`remaining` portion is present, two `remaining` are refused, and every specific portion is copied unchanged. Allocate is also checked for machine-integer overflow (round 8).'},
  'C27': {'note': "NOT covered: Execute's loop and the ANTLR-generated compiler (arbitrary bytes -> program); the typed-stack operand conditions of tick are trusted about compiler output; OP_PRINT's "
                  'channel send is dropped; regular expressions are uninterpreted predicates; regexp.FindStringSubmatch group counts are assumed.',
          'ref': 'DESIGN.md §4 C27',
@@ -119,7 +120,7 @@ CLAIMS = {'C01': {'note': 'Not decided (SQL): the upsert input=input+excluded.in
                  'nil-map write; the program counter strictly increases on every successful step (so Execute terminates within len(Instructions) steps). Machine.ResolveResources and '
                  'Machine.ResolveBalances (round 7): for every program whose resources are typed as the compiler declares them (declAccount / declAsset / balanceSlotsOK / NeededBalances typing, '
                  'listed as requires) and every store answer, no nil dereference, failed type assertion, out-of-range index or nil-map write; ResolveBalances leaves Balances well-formed (wfBal), '
-                 "which is tick's precondition."},
+                 "which is tick's precondition. tick reports finished with every error (Execute drops an error returned otherwise)."},
  'C28': {'note': 'Assumed: stored transactions returned by Store.RevertTransaction are well formed; accounts.Pattern / assets.Pattern are uninterpreted predicates. Not covered: direct SQL writes, '
                  'migrations.',
          'ref': 'DESIGN.md §4 C28',
@@ -186,8 +187,11 @@ CLAIMS = {'C01': {'note': 'Not decided (SQL): the upsert input=input+excluded.in
                  'lists of the entity schemas (queries.Type*.Operators, under contract), stated over the key validateFilters looks up (the name before the first [). Two defects found and fixed this '
                  'way (F22: $in / $exists reaching the panic; F23: metadata[balance[x]] resolved as a balance filter). Reflection-based decoders (round 7): HydrateLog and UnmarshalBulkElementPayload '
                  'are verified with json.Unmarshal into an interface value and reflect.ValueOf(x).Elem().Interface() modelled (nil interface / non-pointer = obligation): no panic for any type string '
-                 'and any data (F24: a JSON null payload, fixed), and an accepted bulk element has one of the four actions, spelled exactly, with the payload type processElement asserts. Date '
-                 'filters: TypeDate.ValidateValue accepts exactly strings that parse, and NormalizeDateFilterValue then returns no (unwrapped, 500) error.'}}
+                 'and any data (F24: a JSON null payload, fixed), and an accepted bulk element has one of the four actions, spelled exactly, with the payload type processElement asserts. Import '
+                 '(round 8): Store.InsertLog requires, for a log that arrives with its id, volumes that cover its postings (what Transaction.MarshalJSON dereferences); importLog is verified to '
+                 'establish it (F25: client-supplied volumes crashed the import goroutine). Cursors (round 8): the paginator constructors require a page size that cannot wrap and, for column '
+                 'cursors, a date or numeric column; Paginate is verified to establish both for queries decoded from client cursors (F26). Date filters: TypeDate.ValidateValue accepts exactly '
+                 'strings that parse, and NormalizeDateFilterValue then returns no (unwrapped, 500) error.'}}
 NA = {'C04': 'Effective volumes are computed by the PL/pgSQL triggers set_effective_volumes / update_effective_volumes; no Go function computes them, so no contract on the Go code can state or decide the '
         'property.',
  'C05': 'Point-in-time / window reads are SQL text (first_value ... over, date predicates); a contract can say which string was built, not what Postgres returns for it.',
